@@ -349,6 +349,8 @@ def c01(ctx):
     files += directed_traces(ctx, "prdir", 8, {"VF_FULL": "0" if ctx.quick else "1", "VF_ONLY": "relfrag"})
     if not ctx.quick:
         reasm_component(ctx, "C01")
+    # the peer's chunks arrive bundled differently from how pion packetises them ([SACK, DATA], [DATA, RE-CONFIG, SACK] ...)
+    files += directed_traces(ctx, "rebundle", 8, {"VF_N": 24 if ctx.quick else 400})
     ctx.validate(files)
 
 
@@ -643,6 +645,7 @@ def c08(ctx):
     ctx.exhaustive = not ctx.quick
     ctx.notes.append("shutdown: who calls (A, B, both) x queued messages x every <=1 (quick: + sampled pairs; thorough: all pairs) loss/duplication "
                      "decision over (kind, sender, ordinal) of DATA/SACK/SHUTDOWN/SHUTDOWN-ACK/SHUTDOWN-COMPLETE")
+    files += directed_traces(ctx, "rebundle", 8, {"VF_N": 24 if ctx.quick else 400})   # SHUTDOWN bundled with SACK / DATA
     ctx.validate(files)
 
 
@@ -689,6 +692,7 @@ def c14(ctx):
     files += directed_traces(ctx, "reconfig", 12 if ctx.quick else 16, {"VF_FULL": "0" if ctx.quick else "1"})
     ctx.notes.append("reconfig: 1-3 streams closing at once x 0/1/3 queued messages x two close/reopen cycles x every single (quick: + sampled pairs; "
                      "thorough: all pairs) loss/duplication decision over (kind, sender, ordinal<=3) of DATA/SACK/RECONFIG")
+    files += directed_traces(ctx, "rebundle", 8, {"VF_N": 24 if ctx.quick else 400})   # RE-CONFIG bundled with the DATA / SACK around it
     ctx.validate(files)
 
 
@@ -749,6 +753,8 @@ def c12(ctx):
     files += directed_traces(ctx, "shutdown", 8, {"VF_FULL": "0"})
     files += xfer_traces(ctx, ["basic", "pr", "il", "lossy", "tiny"], 64, 3000)
     ctx.validate(files)
+    # "alone or bundled": the same chunks re-bundled in transit must have the same effect -- every monitor counts here
+    ctx.validate(directed_traces(ctx, "rebundle", 8, {"VF_N": 24 if ctx.quick else 400}), claim_all="C12_Bundled")
     ctx.notes.append("every bundle of <= %d chunk variants (30 variants over all 16 chunk kinds) enumerated by TLC, concretised with boundary field values; "
                      "bit-exact fidelity for ALL field values is not claimed (boundary grid)" % (2 if ctx.quick else 3))
 
